@@ -4,6 +4,7 @@ import json
 import os
 
 from rogw.tranp.cache.cache import CacheSetting
+from rogw.tranp.errors import Errors
 from rogw.tranp.file.loader import ISourceLoader
 from rogw.tranp.lang.annotation import implements, injectable
 from rogw.tranp.lang.module import module_path_to_filepath
@@ -84,7 +85,12 @@ class SymbolDBPersistor(ISymbolDBPersistor):
 		"""
 		filepath = self._gen_filepath(module)
 		if self._can_store(module, filepath):
-			self._store(module, db, filepath)
+			try:
+				self._store(module, db, filepath)
+			except Errors.Error:
+				raise
+			except Exception as e:
+				raise Errors.Fatal(module, 'Failed to store symbols', e) from e
 
 	@implements
 	def restore(self, module: Module, db: SymbolDB) -> None:
